@@ -1263,11 +1263,21 @@ class MemoryCache:
             entry = self.cache[cache_key]  # May raise KeyError
             if not entry.has_value:
                 raise KeyError()
+            if entry.memento.content_key != memento.content_key:
+                # What is cached is the result of another memento of the same call (the call
+                # was memoized again since this memento was obtained), not of this one
+                raise KeyError()
             self._mark_used(cache_key)
             return entry.value
         else:
             # return a cached ref if it's still in memory
             return self.refs[cache_key]  # May raise KeyError
+
+    @_synchronized
+    def holds(self, memento: Memento) -> bool:
+        """Is the given memento the one that is currently cached for its call?"""
+        entry = self.cache.get(self._cache_key_for_memento(memento))
+        return entry is not None and entry.memento.content_key == memento.content_key
 
     @_synchronized
     def is_memoized(self, fn_reference: FunctionReference, arg_hash: str) -> bool:
@@ -1446,7 +1456,10 @@ class StorageBackendBase(StorageBackend, ABC):
             self._data_source,
             memento.content_key,
         )
-        if self._memory_cache:
+        if self._memory_cache and self._memory_cache.holds(memento):
+            # Only the memento that the cache was given for the call gets its result cached: one
+            # that was obtained earlier may have been forgotten or superseded in the meantime,
+            # and caching it would bring it back
             self._memory_cache.put(memento, result, has_result=True)
 
         return result
